@@ -16,7 +16,7 @@ FLOORS = {
               "kind:SupraCitation": 50, "kind:IdCitation": 50, "kind:ReferenceCitation": 50,
               "kind:FullLawCitation": 50, "kind:FullJournalCitation": 50, "kind:UnknownCitation": 50,
               "calls:ac": 1000, "calls:hs": 1000, "calls:ref": 100, "calls:markup": 200,
-              "pin_cites_checked": 500},
+              "pin_cites_checked": 500, "midpage_sweep_calls": 80},
     "thorough": {"citations": 300000, "kind:ReferenceCitation": 2000, "calls:ref": 5000,
                  "calls:markup": 10000, "pin_cites_checked": 30000},
 }
@@ -88,6 +88,40 @@ def on_result_factory(rec):
     return on_result
 
 
+def midpage_sweep(spec, rec, on_result):
+    """Every pattern whose matched text continues after the page group (short and full form), once per run
+    (sharded): a member followed by a further pin cite, and one ending the text."""
+    import random
+    from eyecite import get_citations
+    from vmon.rxgen import sample
+    rng = random.Random(spec["seed"] + 99)
+    gen.midpage_member(rng, True)
+    gen.midpage_member(rng, False)
+    n = 0
+    for key in (True, False):
+        for e, body, rx in gen._midpage.get(key, []):
+            n += 1
+            if n % 8 != spec["i"] % 8:
+                continue
+            for _ in range(6):
+                try:
+                    m = sample(body, rng, e.flags, maxrep=2, ascii_only=True)
+                except Exception:
+                    break
+                if rx.fullmatch(m) and "\n" not in m:
+                    for text in (f"Foo v. Bar, 1 U.S. 1 (1990). Bar, {m}, 15 (noting x).", f"See Bar, {m}", f"Bar, {m}, 15-16, 20; and {m}."):
+                        for name in ("ac", "hs"):
+                            try:
+                                cs = get_citations(text, tokenizer=tok.get(name))
+                            except Exception as x:
+                                rec.count("get_citations_raised:" + type(x).__name__)
+                                continue
+                            rec.ev()
+                            rec.count("midpage_sweep_calls")
+                            on_result(text, cs, dict(text=text, markup=None, steps=None, tokenizer=name))
+                    break
+
+
 def run_shard(spec, rec):
     if spec.get("suite"):
         return _extract.suite_under_contracts(rec, "C02.")
@@ -104,6 +138,7 @@ def run_shard(spec, rec):
                     continue
                 rec.ev()
                 on_result(p, cs, dict(text=p, markup=None, steps=None, tokenizer=name))
+    midpage_sweep(spec, rec, on_result)
     _extract.drive(spec, rec, on_result, extra=short_extra)
 
 
